@@ -69,6 +69,11 @@ def main(prop):
         violations.append(({'kind': 'boxcar-trace', 'property': prop, 'clauses': clauses, 'run': j['run'], 'scenario': j.get('scenario'),
                             'seed': seed(), 'tier': tier(), 'trace': run_excerpt(f, j['run'])}, txt))
     extra_cov = {}
+    import boxmodel_stage
+    bv, bcov, bs, bt = boxmodel_stage.run(prop, wd, files, thorough)
+    violations += bv
+    states += bs; trans += bt
+    extra_cov.update(bcov)
     if prop in ('C09', 'C11'):
         # the same property at the level of the whole matcher (worker pool, snapshot, restart, handles)
         import nuc_props
@@ -89,8 +94,8 @@ def main(prop):
             violations.append(({'kind': 'nucleo-trace', 'property': prop, 'clauses': clauses, 'run': j['run'], 'scenario': j.get('scenario'),
                                 'seed': seed(), 'tier': tier(), 'trace': nuc_props.excerpt(f, j['run'])}, txt))
         states += nstates; trans += ntrans
-        extra_cov = {'nucleo_level_schedules': ngen['runs'], 'nucleo_level_events_validated': ntot.get('events', 0),
-                     'nucleo_level_scenarios': ngen['scenarios']}
+        extra_cov.update({'nucleo_level_schedules': ngen['runs'], 'nucleo_level_events_validated': ntot.get('events', 0),
+                     'nucleo_level_scenarios': ngen['scenarios']})
         tot['runs'] = tot.get('runs', 0) + ntot.get('runs', 0)
         if prop == 'C11':
             import lifecycle_stage
